@@ -213,7 +213,7 @@ class extract_visitor(NodeVisitor):
             self.visit(df)
 
         if not PY2:
-            for a in node.args.args:
+            for a in getattr(node.args, 'posonlyargs', []) + node.args.args:
                 a.annotation and self.visit(a.annotation)
             for kw in node.args.kwonlyargs:
                 kw.annotation and self.visit(kw.annotation)
@@ -237,7 +237,7 @@ class extract_visitor(NodeVisitor):
             self.visit(d)
 
         if not PY2:
-            for a in node.args.args:
+            for a in getattr(node.args, 'posonlyargs', []) + node.args.args:
                 a.annotation and self.visit(a.annotation)
             for kw in node.args.kwonlyargs:
                 kw.annotation and self.visit(kw.annotation)
